@@ -323,8 +323,9 @@ def replay(pid, path):
     a, ctx1 = failing_clauses(check, case)
     b, ctx2 = failing_clauses(check, case)
     if a != b:
-        print("INTERNAL replay is not deterministic: %r vs %r" % (a, b))
-        return 2
+        print("two runs of the case in this process disagree (%r vs %r): state is kept between calls" % (a, b))
+        print("VIOLATION property=%s replay=%s" % (pid, path))
+        return 1
     if a:
         for cl, _c, det in ctx1.failures:
             print("clause=%s\n  %s" % (cl, det))
@@ -447,8 +448,13 @@ def main(pid, tier, seed):
         a, ctx1 = failing_clauses(check, small)
         b, _ = failing_clauses(check, small)
         if a != b:
-            print("INTERNAL non-deterministic failure for %s" % canon(check.show(small))[:300])
-            return 2
+            # Two runs of one case in one process disagree.  Every check is deterministic on a sound tree (this
+            # is verified on the unchanged tree), so the implementation keeps state between calls: a violation.
+            det = "the same case run twice in one process fails %r the first time and %r the second: state is kept between calls; %s" % (a, b, detail)
+            path = write_replay(check, "state-dependent:" + clause, small, det)
+            violations.append(("state-dependent:" + clause, small, path, det))
+            seen_ident[ident] = True
+            continue
         if clause not in a:
             # The case fails only after the cases that preceded it in its shard: state left behind by earlier
             # calls changes a later outcome.  Replay the shard prefix in a fresh interpreter to confirm.
